@@ -354,4 +354,157 @@ func runC20(r *Run) {
 		}
 		r.count("c20.script")
 	}
+	// two small scripts compared between the transports only (no model line): a pong whose body is not a heartbeat
+	// message, and the keepalive with a gzip threshold below the heartbeat's size
+	for _, sc := range []struct {
+		name string
+		f    func(string) []string
+	}{{"pong with an opaque body", c20OpaquePong}, {"keepalive with MinGzipSize(4)", c20SmallGzipKeepalive}} {
+		t, w := strings.Join(sc.f("tcp"), " | "), strings.Join(sc.f("ws"), " | ")
+		r.st.Notes = append(r.st.Notes, sc.name+" tcp: "+t, sc.name+" ws:  "+w)
+		if t != w {
+			r.violate(Violation{What: "application-level traces differ between TCP and WebSocket for the same peer script (" + sc.name + ")", Case: "tcp: " + t, Impl: "ws:  " + w})
+		}
+		r.st.Evaluations++
+		r.count("c20." + strings.Fields(sc.name)[0])
+	}
+}
+
+// c20Open: client + first peer connection for the small scripts.
+func c20Open(trans string, trace func(string), opts ...client.DialOption) (*testClient, *xconn, func()) {
+	tc := newTestClient()
+	tc.cli.OnPong(func(p *protocol.Packet) {
+		var hb control.Heartbeat
+		err := proto.Unmarshal(p.Body, &hb)
+		trace(fmt.Sprintf("onpong:decodable=%v:rid=hb:%v", err == nil, int64(p.Metadata.RequestId) == int64(hb.GetHeartbeatId())))
+	})
+	var x *xconn
+	var cleanup func()
+	errc := make(chan error, 1)
+	if trans == "tcp" {
+		p := newTCPPeer()
+		go func() { errc <- tc.dial(p.url(), 1, opts...) }()
+		pc := p.accept(3 * time.Second)
+		if pc == nil || !pc.readHandshake(2*time.Second) {
+			p.shutdown()
+			return nil, nil, nil
+		}
+		x = &xconn{trans: trans, tcp: pc}
+		cleanup = p.shutdown
+	} else {
+		p := newWSPeer()
+		go func() { errc <- tc.dial(p.url(), 1, opts...) }()
+		pc := p.accept(3 * time.Second)
+		if pc == nil {
+			p.shutdown()
+			return nil, nil, nil
+		}
+		x = &xconn{trans: trans, ws: pc}
+		cleanup = p.shutdown
+	}
+	if <-errc != nil {
+		cleanup()
+		return nil, nil, nil
+	}
+	return tc, x, func() {
+		func() { defer func() { recover() }(); tc.cli.Close(nil) }()
+		cleanup()
+	}
+}
+
+func c20OpaquePong(trans string) []string {
+	var mu sync.Mutex
+	var tr []string
+	trace := func(s string) { mu.Lock(); tr = append(tr, s); mu.Unlock() }
+	tc, x, done := c20Open(trans, trace, client.Keepalive(time.Hour), client.KeepaliveTimeout(2*time.Hour), client.DialTimeout(time.Second))
+	if tc == nil {
+		return []string{"setup failed"}
+	}
+	defer done()
+	x.pong(7, pbBytes(&control.Heartbeat{Timestamp: 1}))
+	time.Sleep(100 * time.Millisecond)
+	x.pong(8, []byte{0xff, 0xff, 0xff}) // not a protobuf message
+	time.Sleep(100 * time.Millisecond)
+	ch := tc.doAsync(30, nil, time.Second)
+	if f := x.nextData(time.Second); f != nil {
+		x.sendData(respFrame(1, 30, f.Rid, 0, []byte("ok")))
+	}
+	res, _ := awaitDo(ch, 2*time.Second)
+	mu.Lock()
+	defer mu.Unlock()
+	n := 0
+	for _, s := range tr {
+		if strings.HasPrefix(s, "onpong") {
+			n++
+		}
+	}
+	return []string{fmt.Sprintf("pongs surfaced=%d", n), "do:" + strings.Fields(resultStr(res))[0]}
+}
+
+func c20SmallGzipKeepalive(trans string) []string {
+	var mu sync.Mutex
+	var tr []string
+	trace := func(s string) { mu.Lock(); tr = append(tr, s); mu.Unlock() }
+	tc, x, done := c20Open(trans, trace, client.Keepalive(100*time.Millisecond), client.KeepaliveTimeout(5*time.Second), client.DialTimeout(time.Second), client.MinGzipSize(4))
+	if tc == nil {
+		return []string{"setup failed"}
+	}
+	defer done()
+	var out []string
+	for i := 0; i < 3; i++ {
+		ok := false
+		var payload []byte
+		var rid uint32
+		if trans == "tcp" {
+			deadline := time.Now().Add(2 * time.Second)
+			for time.Now().Before(deadline) {
+				f := x.tcp.readFrame(time.Until(deadline))
+				if f == nil {
+					break
+				}
+				if f.Type == 1 && f.Cmd == 1 {
+					payload, rid, ok = f.Body, f.Rid, true
+					if f.Gzip {
+						if plain, fin := stdRead(f.Body); fin == "E" {
+							payload = plain
+						}
+					}
+					x.tcp.send((&RefFrame{V: 1, Type: 2, Cmd: 1, Rid: f.Rid, Gzip: f.Gzip, Body: f.Body, MLenField: -1, BLenField: -1}).encode())
+					break
+				}
+			}
+		} else {
+			deadline := time.Now().Add(2 * time.Second)
+			for time.Now().Before(deadline) {
+				m := x.ws.next(time.Until(deadline))
+				if m == nil || m.kind == -1 {
+					break
+				}
+				if m.kind == websocket.PingMessage {
+					payload, ok = m.data, true
+					x.ws.wmu.Lock()
+					x.ws.c.WriteControl(websocket.PongMessage, m.data, time.Now().Add(time.Second))
+					x.ws.wmu.Unlock()
+					break
+				}
+			}
+		}
+		if !ok {
+			out = append(out, "no heartbeat")
+			break
+		}
+		var hb control.Heartbeat
+		err := proto.Unmarshal(payload, &hb)
+		_ = rid
+		out = append(out, fmt.Sprintf("peer saw heartbeat: decodable=%v id>0=%v", err == nil, hb.GetHeartbeatId() > 0))
+	}
+	time.Sleep(150 * time.Millisecond)
+	mu.Lock()
+	defer mu.Unlock()
+	for i, s := range tr {
+		if i < 3 {
+			out = append(out, s)
+		}
+	}
+	return out
 }
